@@ -613,6 +613,35 @@ TWINS = {
     "final-under-postponed-annotations": (
         [("from __future__ import annotations\nclass F(Schema):\n    k: typing.Final[int] = 4\n    v: int = 0\n", ["F(v='1')", "F(k=5, v=2)"])],
         "class F(Schema):\n    k: typing.Final[int] = 4\n    v: int = 0\n"),
+    "local-class-property-returns-later-class": (
+        [("def make():\n    class Report(Schema):\n        n: int = 0\n        @property\n        def owner(self) -> 'OwnerF':\n"
+          "            return {'v': self.n}\n        @property\n        def owners(self) -> List['OwnerF']:\n"
+          "            return [{'v': str(self.n)}]\n    return Report\nReport = make()\n", []),
+         ("class OwnerF(Schema):\n    v: int\n", ["Report(n='3').owner", "Report(n=2).owners", "dict(Report(n=1))", "Report(n='x')"])],
+        "class OwnerF(Schema):\n    v: int\n"
+        "def make():\n    class Report(Schema):\n        n: int = 0\n        @property\n        def owner(self) -> OwnerF:\n"
+        "            return {'v': self.n}\n        @property\n        def owners(self) -> List[OwnerF]:\n"
+        "            return [{'v': str(self.n)}]\n    return Report\nReport = make()\n"),
+    "discriminator-over-forward-refs": (
+        [("class H(Schema):\n    item: Union['X', 'Y'] = Field(discriminator='kind')\n", []),
+         ("class X(Schema):\n    kind: Literal['x']\n    v: int = 0\n"
+          "class Y(Schema):\n    kind: Literal['y']\n    w: int = 0\n",
+          ["H(item={'kind': 'x', 'v': '1'})", "H(item={'kind': 'y', 'w': 2})", "H(item={'kind': 'z'})"])],
+        "class X(Schema):\n    kind: Literal['x']\n    v: int = 0\n"
+        "class Y(Schema):\n    kind: Literal['y']\n    w: int = 0\n"
+        "class H(Schema):\n    item: Union[X, Y] = Field(discriminator='kind')\n"),
+    "constrained-optional-over-forward-alias": (
+        [("class H(Schema):\n    x: Optional['Cnt'] = Field(ge=1, default=None)\n", []),
+         ("Cnt = int\n", ["H(x='3')", "H(x=0)", "H()", "H(x=None)"])],
+        "Cnt = int\nclass H(Schema):\n    x: Optional[Cnt] = Field(ge=1, default=None)\n"),
+    "schema-init-assigns-before-any-parse": (
+        [("class Sx(Schema):\n    child: 'Later' = None\n    def __init__(self, v: int):\n        self.child = {'v': v}\n", []),
+         ("class Later(Schema):\n    v: int\n", ["Sx(v=3).child", "Sx(v='4').child"])],
+        "class Later(Schema):\n    v: int\nclass Sx(Schema):\n    child: Later = None\n    def __init__(self, v: int):\n        self.child = {'v': v}\n"),
+    "postponed-annotated-with-field": (
+        [("from __future__ import annotations\nclass H(Schema):\n    k: typing.Annotated[Optional[Kid], Field(alias_from=['kid'])] = None\n", []),
+         ("class Kid(Schema):\n    v: int\n", ["H(kid={'v': '1'})", "H(k={'v': 2})", "H()", "H(kid={'v': 'x'})"])],
+        "class Kid(Schema):\n    v: int\nclass H(Schema):\n    k: typing.Annotated[Optional[Kid], Field(alias_from=['kid'])] = None\n"),
     "classvar-under-postponed-annotations": (
         [("from __future__ import annotations\nclass F(Schema):\n    c: typing.ClassVar[int] = 3\n    v: int = 0\n",
           ["F(v='1')", "F(c=5, v=2)", "sorted(F.__parser__.fields)", "F.c"])],
